@@ -17,7 +17,8 @@ RULE = (
     "A Hypothesis rule-based state machine over four stores - L = LocalHashFileDB/md5, G = HashFileDB/md5 on "
     "the local fs, D = LocalHashFileDB/md5-dos2unix (legacy), X = LocalHashFileDB/sha256 (migration target) - "
     "a per-history choice between no hash-state and one real State database shared by all four stores (as in a "
-    "DVC repository), and a pool of 2-4 materialised trees/files drawn per history (nesting, duplicate contents, empty files, "
+    "DVC repository), and a pool of 2-4 materialised trees/files drawn per history (with modest probability a file just over "
+    "1 MiB whose first 1 MiB read chunk is binary and the rest CRLF text, or the opposite mix; nesting, duplicate contents, empty files, "
     "odd/non-ASCII names, CRLF text). Rules (<= 12 per history): stage+transfer (shallow or not), "
     "build(upload=True)+transfer, direct add under the id an honest caller computes (optionally hard-linked), "
     "store->store transfer of a drawn id subset (shallow/expanded, hardlink), index build->md5->save of a "
@@ -40,6 +41,9 @@ ASSUMPTIONS = [
     "name is re-derived - for the sha256 target the listing is therefore audited as 'parses as a listing'",
     "crash leftovers are planted only in local-class stores (the generic class has no integrity-checking "
     "existence query and no protection) and a store with an outstanding leftover is not used as a migration source",
+    "md5-dos2unix is per read chunk for objects larger than 1 MiB (sniff the first 512 bytes of each 1 MiB "
+    "chunk, normalise CRLF inside text chunks): the legacy store's audit, honest ids and leftover names use that "
+    "chunk-wise reference (own module); the md5 / sha256 audits are plain hashlib",
     "files named like dvc-objects temp files (.<token>.tmp) are counted, not judged",
     "hashlib, the reference text sniffing rule and the hand-written listing serialiser are the trusted base",
 ]
@@ -47,6 +51,37 @@ ASSUMPTIONS = [
 # index -> (label, kind, algorithm)
 STORES = [("L", "local", "md5"), ("G", "generic", "md5"), ("D", "local", "md5-dos2unix"), ("X", "local", "sha256")]
 ROUTES = {"D>L": (2, 0), "D>G": (2, 1), "L>X": (0, 3), "G>X": (1, 3)}
+
+
+CHUNK = 2**20  # the library hashes in 1 MiB reads; md5-dos2unix sniffs and normalises each read separately
+
+
+def _mixed_large(spec):
+    """Expand {'order','head','tail'}: first chunk of exactly 1 MiB of one kind, then a short chunk of the other."""
+    head = gen.content_bytes(spec["head"])
+    tail = gen.content_bytes(spec["tail"])
+    if spec["order"] == "bin-text":
+        first = (b"\x00" + head + b"\xff\xfe" * 8 + b"B" * CHUNK)[:CHUNK]
+        second = b"text line\r\n" * 3 + bytes(b for b in tail if 32 <= b < 127 or b in (10, 13)) + b"end\r\n"
+    else:
+        line = b"text " + bytes(b for b in head if 32 <= b < 127) + b" line\r\n"
+        first = (line * (CHUNK // len(line) + 1))[:CHUNK]
+        second = b"\x00\x01bin\r\n" + tail + b"\r\n\x00"
+    return first + second
+
+
+def _href(data, algo):
+    """Reference digest.  For md5-dos2unix objects larger than one read chunk the library's documented
+    behaviour is per 1 MiB chunk (sniff the chunk's first 512 bytes, normalise CRLF inside text chunks)."""
+    if algo != "md5-dos2unix" or len(data) <= CHUNK:
+        return ref.ref_hash(data, algo)
+    import hashlib
+
+    h = hashlib.md5()  # noqa: S324
+    for i in range(0, len(data), CHUNK):
+        c = data[i:i + CHUNK]
+        h.update(c.replace(b"\r\n", b"\n") if ref.ref_istext(c[:512]) else c)
+    return h.hexdigest()
 
 
 def _pool():
@@ -57,11 +92,18 @@ def _pool():
         warnings.simplefilter("ignore")  # gen.trees evaluates bool(strategy)
         t1 = gen.trees(max_files=8, max_depth=3, content=content)
         t2 = gen.trees(max_files=8, max_depth=3, content=content, min_files=2)
-    item = st.one_of(
+    small = st.one_of(
         st.fixed_dictionaries({"t": t1}),
         st.fixed_dictionaries({"t": t2}),
         st.fixed_dictionaries({"f": content}),
     )
+    # a file just over 1 MiB whose two 1 MiB read chunks differ in kind (expanded by _mixed_large)
+    mixed = st.fixed_dictionaries({"m": st.fixed_dictionaries({
+        "order": st.sampled_from(["bin-text", "text-bin"]),
+        "head": st.binary(max_size=8).map(lambda b: "h:" + b.hex()),
+        "tail": st.sampled_from(["p:crlf", "p:C", "p:b513", "p:hello"]) | gen.contents(pool_weight=1, max_size=40),
+    })})
+    item = st.one_of(small, small, small, small, mixed)
     return st.lists(item, min_size=2, max_size=4)
 
 
@@ -79,6 +121,7 @@ class C01Machine(TraceMachine):
         self.labels = set()
         self.saw_dir = False
         self.temps = 0
+        self.big = set()        # contents of the mixed > 1 MiB pool files
         self.leftovers = [{} for _ in STORES]  # per store: {oid: planted bytes} still outstanding
         self.listings = []      # canonical listing bytes of the pool trees (md5 / md5-dos2unix child ids)
 
@@ -117,7 +160,12 @@ class C01Machine(TraceMachine):
                     if lb not in self.listings:
                         self.listings.append(lb)
             else:
-                data = gen.content_bytes(it["f"])
+                if "m" in it:
+                    data = _mixed_large(it["m"])
+                    self.labels.add("pool:mixed-large-" + it["m"]["order"])
+                    self.big.add(data)
+                else:
+                    data = gen.content_bytes(it["f"])
                 gen.write_file(p, data)
                 self.pool.append((p, False, data))
                 self.files.append((p, data))
@@ -159,7 +207,7 @@ class C01Machine(TraceMachine):
             return
         odb = self.odbs[store]
         path, data = self.files[fidx % len(self.files)]
-        oid = ref.ref_hash(data, STORES[store][2])  # what an honest caller computes from that same path
+        oid = _href(data, STORES[store][2])  # what an honest caller computes from that same path
         odb.add(path, LocalFileSystem(), oid, hardlink=hardlink)
         self.labels.add("add_direct" + ("-hardlink" if hardlink else ""))
 
@@ -209,6 +257,8 @@ class C01Machine(TraceMachine):
             # precondition: the source of a migration holds no outstanding crash leftover (migrate hard-links
             # every file of the source, so protecting the new object would also chmod the leftover)
             return
+        if s == 2 and any(_href(b, "md5-dos2unix") in self.ids[2] for b in self.big):
+            self.labels.add("migrate-legacy-with-mixed-large")
         n = migrate(prepare(self.odbs[s], self.odbs[t]))
         self.labels.add("migrate:" + route)
         if n:
@@ -245,7 +295,7 @@ class C01Machine(TraceMachine):
         algo = STORES[store][2]
         _p, data = cands[which % len(cands)]
         isdir = which % len(cands) >= len(self.files)
-        oid = ref.ref_hash(data, algo) + (".dir" if isdir else "")
+        oid = _href(data, algo) + (".dir" if isdir else "")
         planted = data[: cut % len(data)] if data else b""
         if planted == data or oid in self.ids[store] or oid in self.leftovers[store]:
             return
@@ -267,6 +317,11 @@ class C01Machine(TraceMachine):
                 problems, contents = _audit_foreign(path, algo)
             else:
                 problems, contents = ref.audit_local_store(path, algo, require_protected=(kind == "local") or None)
+            if algo == "md5-dos2unix":
+                # ref.audit_local_store sniffs the whole content once; objects > 1 MiB are judged per chunk
+                problems = [p for p in problems
+                            if not (p[0] == "mismatch" and len(contents.get(p[1], b"")) > CHUNK
+                                    and not p[1].endswith(".dir") and _href(contents[p[1]], algo) == p[1])]
             problems = self._judge_leftovers(i, label, contents, problems)
             for what, oid, why in problems:
                 self.violate(f"{what}:{_origin(self.trace)}", f"store {label} ({kind}, {algo}): {why}")
@@ -298,7 +353,7 @@ class C01Machine(TraceMachine):
                 del self.leftovers[i][oid]
                 self.labels.add("leftover-healed-by-removal")
                 continue
-            if ref.ref_hash(contents[oid], algo) == raw:
+            if _href(contents[oid], algo) == raw:
                 del self.leftovers[i][oid]
                 self.labels.add("leftover-healed-by-replacement")
                 continue
